@@ -320,7 +320,20 @@ func mutateOpts(l Line) *sgbucket.MutateInOptions {
 }
 
 // exec runs one protocol line against the implementation and returns its canonical result text.
+var traceHLC = os.Getenv("VERIF_TRACE_HLC") == "1"
+
 func (w *World) exec(l Line) (res string) {
+	// (metamorphic runs) `@hlc=N` puts the process clock where it stood at this point of another run; with VERIF_TRACE_HLC=1 every
+	// result line reports where the clock stood before the operation
+	if v, ok := l.get("@hlc"); ok {
+		if n, err := strconv.ParseUint(v, 10, 64); err == nil {
+			rosmar.VerifResetHLC(n)
+		}
+	}
+	if traceHLC {
+		before := rosmar.VerifHLCHighest()
+		defer func() { res += fmt.Sprintf(" @hlc=%d", before) }()
+	}
 	defer func() {
 		if strings.Contains(res, "FOREIGN_KEY_constraint_failed") {
 			res = "r=dropped" // a write through the object of a dropped collection
